@@ -440,6 +440,11 @@ class UTPM(Ring, RawAlgorithmsMixIn):
             return UTPM.exp(UTPM.log(self)*r)
         else:
             x_data = self.data
+            if isinstance(r, numpy.ndarray) and r.ndim > 0:
+                # an array of exponents is broadcast against the coefficient
+                # axes, not against the direction axis
+                x_data, r = UTPM._broadcast_arrays(x_data, r.reshape((1,1) + r.shape))
+                r = r[0,0]
             y_data = numpy.zeros(x_data.shape, dtype=numpy.result_type(x_data.dtype, r))
             self._pow_real(x_data, r, y_data)
             return UTPM(y_data)
@@ -465,6 +470,20 @@ class UTPM(Ring, RawAlgorithmsMixIn):
 
         if isinstance(r, cls):
             raise NotImplementedError('r must be int or float, or use the identity x**y = exp(log(x)*y)')
+
+        if isinstance(r, numpy.ndarray) and y.data.shape != x.data.shape:
+            # x has been broadcast against the array of exponents: sum the adjoint over the broadcast axes
+            x_data, r_data = cls._broadcast_arrays(x.data, r.reshape((1,1) + r.shape))
+            tmp = numpy.zeros(y.data.shape, dtype=xbar.data.dtype)
+            cls._pb_pow_real(ybar.data, x_data, r_data[0,0], y.data, out = tmp)
+            x_shp = xbar.data.shape
+            while tmp.ndim > len(x_shp):
+                tmp = tmp.sum(axis=2)
+            for ax in range(2, len(x_shp)):
+                if x_shp[ax] == 1 and tmp.shape[ax] != 1:
+                    tmp = tmp.sum(axis=ax, keepdims=True)
+            xbar.data[...] += tmp
+            return xbar
 
         cls._pb_pow_real(ybar.data, x.data, r, y.data, out = xbar.data)
         return xbar
